@@ -1,3 +1,4 @@
 import Cgm.Lemmas.AuditCmd
 import Cgm.Props.C14
+import Cgm.Props.C14b
 #audit_namespace Cg.C14
